@@ -22,17 +22,17 @@ T2 = {
     "index|%snext_char|str::index|0" % DE:
         (r"RangeFrom\{start: .*len_utf8", "slices off exactly the first char returned by peek_char (chars().next()), a char boundary inside the string"),
     "index|%snext_delimiter|str::index|0" % DE:
-        (r"RangeFrom\{start: .*len_utf8", "guarded by input.starts_with(current): slices off exactly that char"),
+        (r"RangeFrom\{start: .*len_utf8", "guarded by input.starts_with(current): slices off exactly that char", [r"^true: .*starts_with\(self\.input"]),
     "slice-api|%sparse_string|str::split_at|0" % DE:
         (r"find\(self\.input", "index is the result of self.input.find('\"') on the same string: a char boundary in range"),
     "index|%sparse_string|str::index|0" % DE:
         (r"split_at.*RangeFrom\{start: 1\}", "`rest` starts at the '\"' found by find; '\"' is one byte"),
     "overflow|%sparse_unsigned|Sub|0" % DE:
-        (r"48\)$", "ch matched '0'..='9' so ch as u8 >= b'0'"),
+        (r"48\)$", "ch matched '0'..='9' so ch as u8 >= b'0'", [r"^true: Le\(48, ", r"^true: Le\(.*, 57\)$"]),
     "overflow|%sparse_unsigned::{closure#0}|Sub|0" % DE:
         (r"48\)$", "ch matched '0'..='9' so ch as u8 >= b'0' (closure of the checked accumulation)"),
     "index|%sparse_unsigned|str::index|0" % DE:
-        (r"RangeFrom\{start: 1\}", "the next char matched '0'..='9': one ASCII byte"),
+        (r"RangeFrom\{start: 1\}", "the next char matched '0'..='9': one ASCII byte", [r"^true: Le\(48, .*Chars", r"^true: Le\(.*Chars.*, 57\)$"]),
     "slice-api|%suntil_delim|str::split_at|0" % DE:
         (r"find\(self\.input", "index is the result of self.input.find(..) on the same string"),
     "overflow|<%sAlreadySeparated<'_, 'de> as serde::de::MapAccess<'de>>::next_key_seed|Add|0" % HM:
@@ -46,17 +46,17 @@ T2 = {
     "overflow|<%sStrMapVisitor as serde::de::Visitor<'de>>::visit_map|Add|0" % HM:
         (r"find\(", "start is an offset inside key"),
     "overflow|<%sStrMapVisitor as serde::de::Visitor<'de>>::visit_map|Sub|0" % HM:
-        (r"len\(", "key ends with ']' so it is non-empty"),
+        (r"len\(", "key ends with ']' so it is non-empty", [r"^true: core::str::<impl str>::ends_with\(.*, 93\)$"]),
     "index|<%sStrMapVisitor as serde::de::Visitor<'de>>::visit_map|str::index|0" % HM:
-        (r"Range\{start: Add\(.*find", "key ends with ']' and '[' was found at start <= len-1 and != the last byte, so start+1 <= len-1; both are ASCII boundaries"),
+        (r"Range\{start: Add\(.*find", "key ends with ']' and '[' was found at start <= len-1 and != the last byte, so start+1 <= len-1; both are ASCII boundaries", [r"^true: core::str::<impl str>::ends_with\(.*, 93\)$", r"^some: core::str::<impl str>::find\(.*, 91\)$"]),
     "index|<%sStrMapVisitor as serde::de::Visitor<'de>>::visit_map|str::index|1" % HM:
         (r"RangeTo\{end: .*find", "end is the offset of '[' found in key"),
     "index|model::parser::model::convert_tree|Vec::index|0":
-        (r"orig_tree\.nodes, 0", "evaluated only after `orig_tree.nodes.len() == 1 &&` (short-circuit)"),
+        (r"orig_tree\.nodes, 0", "evaluated only after `orig_tree.nodes.len() == 1 &&` (short-circuit)", [r"^true: Eq\(len\(orig_tree\.nodes\), 1\)$"]),
     "index|model::parser::model::convert_tree|Vec::index|1":
-        (r"orig_tree\.nodes, 0", "evaluated only after `orig_tree.nodes.len() == 1 &&` (short-circuit)"),
+        (r"orig_tree\.nodes, 0", "evaluated only after `orig_tree.nodes.len() == 1 &&` (short-circuit)", [r"^true: Eq\(len\(orig_tree\.nodes\), 1\)$"]),
     "index|model::parser::model::convert_tree|Vec::index|2":
-        (r"orig_tree\.nodes, 0", "inside the branch guarded by nodes.len() == 1"),
+        (r"orig_tree\.nodes, 0", "inside the branch guarded by nodes.len() == 1", [r"^true: Eq\(len\(orig_tree\.nodes\), 1\)$"]),
     "overflow|model::parser::model::convert_tree::{closure#1}|Add|0":
         (r"Add\(%1, len\(", "v < pdfs.len() <= 2*nodes.len(); both are lengths of in-memory Vecs"),
     "overflow|model::parser::model::convert_tree::{closure#2}|Add|0":
@@ -72,7 +72,7 @@ T2 = {
     "unwrap|model::voice_set::VoiceSet::first|Option::unwrap|0":
         (r"first\(self\.0\)", "VoiceSet is non-empty by construction (C19-R1: only VoiceSet::new builds it, after first().ok_or(EmptyVoice))"),
     "index|model::voice_set::VoiceSet::new|Vec::index|0":
-        (r"RangeFrom\{start: 1\}", "reached only after voices.first() returned Some, so len >= 1 and [1..] is in range"),
+        (r"RangeFrom\{start: 1\}", "reached only after voices.first() returned Some, so len >= 1 and [1..] is in range", [r"^ok: .*ok_or\(.*first\(voices\)"]),
     "alloc|engine::Condition::load_model|slice::repeat|0":
         (r"num_streams", "num_streams == number of listed (and fully parsed) streams: validated by parse_htsvoice (rule C18-R4), so the size is bounded by data present in the file"),
     "alloc|engine::Condition::load_model|slice::repeat|1":
@@ -226,14 +226,15 @@ def run(ctx):
                 continue
             ent = T2.get(s.key)
             if ent:
-                rx, reason = ent
+                reason = ent[1]
                 used_t2.add(s.key)
-                if re.search(rx, s.shape()):
+                okm, whynot = ledger.t2_match(ent, s)
+                if okm:
                     tiers["T2"] += 1
                     ctx.ok(rule, "T2 %s  %s" % (s.key, s.detail[:120]), s.loc(), reason)
                     continue
                 ctx.fail(rule, s.fn, "%s %s" % (s.kind, s.api),
-                         "audited site changed shape: expected /%s/ in `%s` (audit: %s)" % (rx, s.shape(), reason),
+                         "%s (audit: %s)" % (whynot, reason),
                          s.loc(), extra={"site_key": s.key})
                 tiers["finding"] += 1
                 continue
